@@ -273,10 +273,11 @@ theorem loadL_valChars (v : Val) (hs : safeVal v = true) : loadL (valChars v) = 
         intro w hw; obtain ⟨s, _, rfl⟩ := List.mem_map.mp hw; exact pairChars_ne_nil s) '}'
       have hl := joinSep_length ((x :: r).map pairChars) (by
         intro w hw; obtain ⟨s, _, rfl⟩ := List.mem_map.mp hw; exact pairChars_ne_nil s)
+      simp only [safeVal, Bool.and_eq_true] at hs
       have := readPairs_joinSep (x :: r) ((joinSep ((x :: r).map pairChars) ++ ['}']).length) (by simp)
-        (by simp only [List.length_map] at hl; simp only [List.length_append]; omega) hs
+        (by simp only [List.length_map] at hl; simp only [List.length_append]; omega) hs.1
       have h1 : ('{' : Char) ≠ '[' := by decide
-      simp only [valChars, loadL, h1, if_true, hne, if_false, this, Option.map_some]
+      simp only [valChars, loadL, h1, if_true, hne, if_false, this, hs.2]
 
 theorem loadText_textOf (v : Val) (hs : safeVal v = true) : loadText (textOf v) = some v := by
   simp [loadText, textOf, String.toList_ofList, loadL_valChars v hs]
